@@ -255,6 +255,10 @@ pub fn profile_for(prop: &str, tier: &str) -> Profile {
         }
         "C13" => {
             p.w_roundtrip = 8;
+            p.w_ser = 6;
+            p.max_dims = 2;
+            p.max_attrs = 3;
+            p.hybrid_pct = 20;
             p.matrix_often = true;
         }
         "C17" => {
